@@ -419,3 +419,55 @@ Definition dis (T : tables) (bytes : list Z) : outcome :=
   | DNone => ONone
   | DCrash k => OCrash k
   end.
+
+(** * Control-flow metadata: breakflow / splitflow / dstflow / getnextflow / getdstflow *)
+Definition flow_flags (T : tables) (i : instr) : Z * Z * Z :=
+  match nthZ (t_mnemos T) (i_m i) with
+  | Some m => (m_bkf m, m_spf m, m_dtf m)
+  | None => (0, 0, 0)
+  end.
+Definition getnextflow (offset : Z) (i : instr) : Z := offset + i_len i.
+
+Definition is_imm_arg (a : arg) : bool :=
+  negb (is_address a) && (match a_imm a with Some _ => true | None => false end)
+  && (match a_regs a with [] => true | _ => false end) && (match a_segm a with None => true | Some _ => false end).
+
+Definition max_uint_bits (m : mode) : option Z :=
+  match m with Mu08 => Some 8 | Mu16 => Some 16 | Mu32 => Some 32 | Mu64 => Some 64 | _ => None end.
+
+Inductive dstres := DstVal (v : Z) | DstArg | DstErr (k : crash).
+(** (self.offset + self.l + a[imm]) & tab_max_uint[self.opmode], the sum being taken in the immediate's uintN class *)
+Definition getdstflow (offset : Z) (i : instr) : dstres :=
+  if String.eqb (i_name i) "jmpf" then DstArg else
+  match i_args i with
+  | [a] =>
+      if is_imm_arg a then
+        match a_imm a, max_uint_bits (i_opmode i) with
+        | Some (w, v), Some ob => DstVal (Z.land (wrapn w (offset + i_len i + v)) (2 ^ ob - 1))
+        | _, None => DstErr CKey
+        | None, _ => DstErr CKey
+        end
+      else DstArg
+  | _ => DstErr CValue
+  end.
+
+(** the architectural classification of mnemonics (Intel SDM vol. 2), independent of the dumped tables *)
+Definition jcc_names : list string :=
+  ["jo"; "jno"; "jb"; "jnae"; "jc"; "jnb"; "jae"; "jnc"; "jz"; "je"; "jnz"; "jne"; "jbe"; "jna"; "ja"; "jnbe"; "js"; "jns";
+   "jp"; "jpe"; "jnp"; "jpo"; "jl"; "jnge"; "jnl"; "jge"; "jle"; "jng"; "jnle"; "jg"; "jcxz"; "jecxz";
+   "loop"; "loope"; "loopz"; "loopne"; "loopnz"; "call"; "callf"].
+Definition uncond_names : list string := ["jmp"; "jmpf"; "ret"; "retf"; "hlt"; "ud2"].
+Definition excluded_names : list string := ["syscall"; "sysenter"; "sysexit"; "sysret"].
+Inductive flow_class := FCond | FUncond | FExcluded | FNext.
+Definition flow_spec (name : string) : flow_class :=
+  if name_in name excluded_names then FExcluded
+  else if name_in name jcc_names then FCond
+  else if name_in name uncond_names || prefixb "iret" name then FUncond
+  else FNext.
+Definition flow_ok (m : mnem) : bool :=
+  match flow_spec (mn_name m) with
+  | FExcluded => true
+  | FCond => (m_bkf m =? 1) && (m_spf m =? 1) && (m_dtf m =? 1)
+  | FUncond => (m_bkf m =? 1) && negb (m_spf m =? 1)
+  | FNext => negb (m_bkf m =? 1)
+  end.
